@@ -1,8 +1,11 @@
 #!/bin/bash
-# seeded_matrix.sh — run every archived seeded change against the checks expected to catch it (quick tier)
-# and print one line per (change, check). /repo is restored after each change.
+# seeded_matrix.sh [ids...] — run every archived seeded change against the checks expected to catch it (quick
+# tier, scratch-worktree mode so that /repo is not touched) and print one line per (change, check).
 declare -A CHECKS=( [C01]="C01 C03" [C02]="C02" [C03]="C03" [C04]="C04 C09" [C05]="C05" [C06]="C06" [C07]="C07" [C08]="C08" [C09]="C09" [C10]="C10"
- [C11]="C11 C19" [C12]="C12 C07" [C13]="C13" [C14]="C14" [C15]="C15" [C16]="C16" [C17]="C17 C03" [C18]="C18" [C19]="C19" [C20]="C20" )
-for id in ${1:-C01 C02 C03 C04 C05 C06 C07 C08 C09 C10 C11 C12 C13 C14 C15 C16 C17 C18 C19 C20}; do
-  /verif/tools/mutant_run.sh $id ${TIER:-quick} ${CHECKS[$id]} 2>&1 | grep -a "^seeded="
+ [C11]="C11 C19" [C12]="C12 C07" [C13]="C13" [C14]="C14" [C15]="C15" [C16]="C16" [C17]="C17 C03" [C18]="C18" [C19]="C19" [C20]="C20"
+ [C01b]="C01 C08" [C02b]="C02" [C03b]="C03 C01" [C04b]="C04 C17" [C05b]="C11" [C06b]="C06" [C07b]="C07" [C08b]="C08 C11" [C09b]="C09" [C10b]="C10"
+ [C11b]="C11" [C12b]="C12" [C13b]="C13" [C14b]="C14" [C15b]="C15" [C16b]="C16 C09" [C17b]="C15 C02" [C18b]="C10" [C19b]="C19" [C20b]="C20" )
+ALL="C01 C02 C03 C04 C05 C06 C07 C08 C09 C10 C11 C12 C13 C14 C15 C16 C17 C18 C19 C20 C01b C02b C03b C04b C05b C06b C07b C08b C09b C10b C11b C12b C13b C14b C15b C16b C17b C18b C19b C20b"
+for id in ${@:-$ALL}; do
+  TREE=${TREE-1} /verif/tools/mutant_run.sh $id ${TIER:-quick} ${CHECKS[$id]} 2>&1 | grep -a "^seeded=\|^error"
 done
